@@ -406,7 +406,8 @@ func C13(e *Env) {
 			}
 			// ENOENT is injected only where it cannot be mistaken for a legitimate "does not exist"
 			// answer of the key-file lookup (an open that reports ENOENT *is* "no key")
-			if opk == "stat" || opk == "fstat" {
+			// (the same holds for any look at a key file's path: "not there" selects another transformation)
+			if (opk == "stat" || opk == "fstat") && !(i-1 < len(log) && isKeyPath(log[i-1].Path)) {
 				plans = append(plans, plan{[]spyfs.Fault{{Index: i, Kind: spyfs.FENOENT}}, fmt.Sprintf("ENOENT at op #%d (%s)", i, opk), "enoent", opk})
 			}
 		}
@@ -417,7 +418,7 @@ func C13(e *Env) {
 		for i := 0; i < e.Pick(20, 400) && K > 1; i++ {
 			a, b := 1+rng.Intn(K), 1+rng.Intn(K)
 			kind2 := []string{spyfs.FEIO, spyfs.FShort, spyfs.FENOENT}[rng.Intn(3)]
-			if kind2 == spyfs.FENOENT && (b-1 >= len(log) || (log[b-1].Kind != "stat" && log[b-1].Kind != "fstat")) {
+			if kind2 == spyfs.FENOENT && (b-1 >= len(log) || (log[b-1].Kind != "stat" && log[b-1].Kind != "fstat") || isKeyPath(log[b-1].Path)) {
 				kind2 = spyfs.FEIO
 			}
 			plans = append(plans, plan{[]spyfs.Fault{{Index: a, Kind: spyfs.FEIO}, {Index: b, Kind: kind2, K: 1 + rng.Intn(3000)}}, fmt.Sprintf("pair: EIO at #%d + %s at #%d", a, kind2, b), "pair", "pair"})
@@ -753,4 +754,10 @@ func c13Endings(e *Env, tro, trw *c13Target, scen []c13Scenario) {
 	}
 	run.Obs("ending_runs", n)
 	CrashCheck(e, tto.p, "c13 timeout worker", nil)
+}
+
+// isKeyPath tells whether a file-system operation looks at a key file (or at the REDKEY directory).
+func isKeyPath(p string) bool {
+	lp := strings.ToLower(p)
+	return strings.HasSuffix(lp, ".dkey") || strings.HasSuffix(lp, ".key") || strings.Contains(lp, "/redkey")
 }
